@@ -2,7 +2,7 @@
 from vf.common import Check, assert_repo_import, tier, seed
 from vf import gen, e1run
 
-KINDS = ("nonrandom_changed", "under_constrained", "over_constrained", "returned_values_violate", "spurious_failure", "missed_failure", "other_exception", "out_of_type", "unmapped_var")
+KINDS = ("nonrandom_changed", "under_constrained", "over_constrained", "returned_values_violate", "spurious_failure", "missed_failure", "other_exception", "out_of_type", "unmapped_var", "model_field_missing")
 
 
 def canaries(chk):
